@@ -73,7 +73,7 @@ class C10(Check):
     rule = (
         "cases: batches of 2..4 elements (call ids ascending, descending or strings and integers mixed in request order), each a call or notification to a coroutine that returns / raises a protocol error / raises an "
         "exception (0..2 suspension points each), a plain non-coroutine function, an async class based view method (with constructor context, and context-less using self as per-request scratch space) or an unknown method; "
-        "optional middleware and generic error handler (identity / annotating / replacing, plus an optional handler for the protocol error's code) with 0..1 suspension points each; concurrent_batch on / off. For every case ALL "
+        "optional middleware and generic error handler (identity / annotating / replacing, plus an optional handler for the protocol error's code) with 0..1 suspension points each; concurrent_batch on / off; dispatch called with a context object or with none. For every case ALL "
         "interleavings are enumerated by DFS over 'which parked coroutine resumes next' under a harness-owned event-loop scheduler (up to "
         "2520 for 4 x 2; cases whose total suspension points exceed the tier bound follow the sampled schedules drawn by Hypothesis). Oracle "
         "for every schedule: response document == reference server (request order, own id, own result / error), each element executed "
@@ -116,7 +116,7 @@ class C10(Check):
 
         return st.builds(
             lambda c, els, mw, eh, ek, e7, ids: fit({'concurrent': c, 'elements': els, 'mw_suspend': mw, 'eh_suspend': eh, 'eh_kind': ek, 'eh_code7': e7,
-                                                     'schedule': 'all', 'id_style': ids}),
+                                                     'schedule': 'all', 'id_style': ids, 'context': 'none' if (len(els) + (mw or 0)) % 3 == 0 else 'object'}),
             st.booleans(), st.lists(s_el, min_size=2, max_size=4), st.sampled_from([None, None, 0, 1]), st.sampled_from([None, None, 0, 1]),
             st.sampled_from(['identity', 'annotate', 'annotate', 'replace']), st.sampled_from([None, None, 'annotate', 'replace']),
             st.sampled_from(['ascending', 'descending', 'mixed']),
@@ -134,6 +134,8 @@ class C10(Check):
         out.append({'concurrent': True, 'elements': [c('rpc', 1), c('rpc', 1), c('exc', 1), c('exc', 0), c('nope', 0), c('nope', 0)], 'mw_suspend': None,
                     'eh_suspend': 0, 'eh_kind': 'annotate', 'eh_code7': 'replace', 'schedule': 'all'})
         out.append({'concurrent': True, 'elements': [c('ret', 2), c('rpc', 2), c('exc', 2), c('ret', 2)], 'mw_suspend': None, 'eh_suspend': None, 'schedule': 'all'})
+        out.append({'concurrent': False, 'context': 'none', 'elements': [c('ret', 1), c('ret', 1), c('rpc', 1, 'notification')], 'mw_suspend': 1, 'eh_suspend': None, 'schedule': 'all'})
+        out.append({'concurrent': True, 'context': 'none', 'elements': [c('ret', 1), c('exc', 1)], 'mw_suspend': None, 'eh_suspend': 1, 'eh_kind': 'annotate', 'schedule': 'all'})
         for conc in (True, False):
             for ids in ('descending', 'mixed'):
                 out.append({'concurrent': conc, 'elements': [c('ret', 1), c('ret', 0), c('rpc', 1), c('ret', 0, 'notification')], 'mw_suspend': None, 'eh_suspend': None,
@@ -171,7 +173,8 @@ class C10(Check):
         suspend = {f"tag:{i}": el.get('suspend', 0) for i, el in enumerate(spec['elements'])}
         hm.RT.reset(sentinel, BEHAVIOURS, error_builder=sh.build_error, point=s.point, suspend=suspend)
         d = hm.build_dispatcher('async', REGISTRY, middlewares=mws, error_handlers=table, concurrent_batch=spec['concurrent'])
-        result, exc, counts = s.run(lambda: d.dispatch(text, sentinel), choices)
+        # the caller may pass no context at all (dispatch(text)): sequential mode is about the elements, not about the context object
+        result, exc, counts = s.run((lambda: d.dispatch(text)) if spec.get('context') == 'none' else (lambda: d.dispatch(text, sentinel)), choices)
         return result, exc, counts, list(hm.RT.log), flight, s.trace
 
     def run_case(self, spec: Any) -> Outcome:
@@ -237,6 +240,8 @@ class C10(Check):
             judge(spec['schedule']['choices'], result, exc, log, flight)
 
         classes = ['mode/concurrent' if spec['concurrent'] else 'mode/sequential']
+        if spec.get('context') == 'none':
+            classes.append('dispatch/without-context')
         if exhaustive:
             classes.append('schedules/exhaustive')
         for el in spec['elements']:
